@@ -4,17 +4,17 @@
    BitmapProofs*.v).
 
    State.  `bm_card` is the C field `cardinality` and is maintained exactly where
-   the C maintains it.  The container is
-     CArray rvals cap : rvals = values[cardinality-1], ..., values[1], values[0]: the
-                       live slots of container.array.values, LAST slot first (the C
+   the C maintains it.  The bm_container is
+     BmArray rvals cap : rvals = values[cardinality-1], ..., values[1], values[0]: the
+                       live slots of bm_container.array.values, LAST slot first (the C
                        never reads a slot at or beyond `cardinality`; those slots are
                        not modelled).  Held in this order so that the cost profile of
                        the model matches memmove: appending at the end is O(1),
                        inserting at index i rebuilds cardinality - i cells.
-                       cap = container.array.capacity;
-     CBits bits      : the 8192 bytes of container.bitmap.bits, as a finite map
+                       cap = bm_container.array.capacity;
+     BmBits bits      : the 8192 bytes of bm_container.bitmap.bits, as a finite map
                        from byte index to byte (absent = 0, as calloc leaves it);
-     CRuns runs cap  : runs = the numRuns (start,length) pairs, cap = runs.capacity.
+     BmRuns runs cap  : runs = the numRuns (start,length) pairs, cap = runs.capacity.
    Allocation failure is outside C08/C14 (C18); every malloc/calloc/realloc is
    taken to succeed, the sites are listed in the report.  The decoder records the
    sizes it asks for. *)
@@ -31,62 +31,58 @@ Local Open Scope N_scope.
    to nth / firstn / skipn at N.to_nat i. *)
 
 (* drop p elements *)
-Fixpoint dropP {A : Type} (p : positive) (l : list A) : list A :=
+Fixpoint bm_dropP {A : Type} (p : positive) (l : list A) : list A :=
   match p with
   | xH => tl l
-  | xO q => dropP q (dropP q l)
-  | xI q => tl (dropP q (dropP q l))
+  | xO q => bm_dropP q (bm_dropP q l)
+  | xI q => tl (bm_dropP q (bm_dropP q l))
   end.
-Definition skipnN {A : Type} (n : N) (l : list A) : list A :=
-  match n with N0 => l | Npos p => dropP p l end.
+Definition bm_skipnN {A : Type} (n : N) (l : list A) : list A :=
+  match n with N0 => l | Npos p => bm_dropP p l end.
 
 (* first p elements of l, followed by k applied to the rest *)
-Definition take1 {A : Type} (l : list A) (k : list A -> list A) : list A :=
+Definition bm_take1 {A : Type} (l : list A) (k : list A -> list A) : list A :=
   match l with x :: t => x :: k t | [] => k [] end.
-Fixpoint takeP {A : Type} (p : positive) (l : list A) (k : list A -> list A) : list A :=
+Fixpoint bm_takeP {A : Type} (p : positive) (l : list A) (k : list A -> list A) : list A :=
   match p with
-  | xH => take1 l k
-  | xO q => takeP q l (fun r => takeP q r k)
-  | xI q => takeP q l (fun r => takeP q r (fun r2 => take1 r2 k))
+  | xH => bm_take1 l k
+  | xO q => bm_takeP q l (fun r => bm_takeP q r k)
+  | xI q => bm_takeP q l (fun r => bm_takeP q r (fun r2 => bm_take1 r2 k))
   end.
-Definition takeN {A : Type} (n : N) (l : list A) (k : list A -> list A) : list A :=
-  match n with N0 => k l | Npos p => takeP p l k end.
+Definition bm_takeN {A : Type} (n : N) (l : list A) (k : list A -> list A) : list A :=
+  match n with N0 => k l | Npos p => bm_takeP p l k end.
 
-Definition nthN (l : list N) (i : N) : N := hd 0 (skipnN i l).
+Definition bm_nthN (l : list N) (i : N) : N := hd 0 (bm_skipnN i l).
 
-Definition firstnN {A : Type} (n : N) (l : list A) : list A := takeN n l (fun _ => []).
-
-(* a[i] = f a[i]  (nothing when i is out of range) *)
-Definition updN (l : list N) (i : N) (f : N -> N) : list N :=
-  takeN i l (fun r => match r with x :: t => f x :: t | [] => [] end).
+Definition bm_firstnN {A : Type} (n : N) (l : list A) : list A := bm_takeN n l (fun _ => []).
 
 (* insert v after the first i cells *)
-Definition insertN (l : list N) (i v : N) : list N := takeN i l (fun r => v :: r).
+Definition bm_insertN (l : list N) (i v : N) : list N := bm_takeN i l (fun r => v :: r).
 
 (* delete the cell after the first i cells *)
-Definition removeN (l : list N) (i : N) : list N := takeN i l (fun r => tl r).
+Definition bm_removeN (l : list N) (i : N) : list N := bm_takeN i l (fun r => tl r).
 
-Definition lenN {A : Type} (l : list A) : N := N.of_nat (length l).
+Definition bm_lenN {A : Type} (l : list A) : N := N.of_nat (length l).
 
 (* for (i = lo; i < lo + n; i++) s = body i s *)
-Definition for_loop {S : Type} (lo n : N) (body : N -> S -> S) (s : S) : S :=
+Definition bm_for_loop {S : Type} (lo n : N) (body : N -> S -> S) (s : S) : S :=
   snd (N.iter n (fun p => (fst p + 1, body (fst p) (snd p))) (lo, s)).
 
-Definition nseqN (lo n : N) : list N := rev_append (for_loop lo n (fun i acc => i :: acc) []) [].
+Definition bm_nseqN (lo n : N) : list N := rev_append (bm_for_loop lo n (fun i acc => i :: acc) []) [].
 
 (* byte-addressed memory block: finite map index -> byte, absent = 0 *)
-Definition mem8 := PositiveMap.t N.
-Definition mzero : mem8 := PositiveMap.empty N.
-Definition mget (m : mem8) (i : N) : N :=
+Definition bm_mem8 := PositiveMap.t N.
+Definition bm_mzero : bm_mem8 := PositiveMap.empty N.
+Definition bm_mget (m : bm_mem8) (i : N) : N :=
   match PositiveMap.find (N.succ_pos i) m with Some b => b | None => 0 end.
-Definition mset (m : mem8) (i b : N) : mem8 := PositiveMap.add (N.succ_pos i) b m.
+Definition bm_mset (m : bm_mem8) (i b : N) : bm_mem8 := PositiveMap.add (N.succ_pos i) b m.
 (* memcpy(m, bytes, length bytes) *)
-Definition mem_of_bytes (bytes : list N) : mem8 :=
-  snd (fold_left (fun st b => (fst st + 1, mset (snd st) (fst st) b)) bytes (0, mzero)).
-(* the byte indices 0 .. 8191 of a bitmap container *)
-Definition byte_idx : list N := nseqN 0 8192.
+Definition bm_mem_of_bytes (bytes : list N) : bm_mem8 :=
+  snd (fold_left (fun st b => (fst st + 1, bm_mset (snd st) (fst st) b)) bytes (0, bm_mzero)).
+(* the byte indices 0 .. 8191 of a bm_state bm_container *)
+Definition bm_byte_idx : list N := bm_nseqN 0 8192.
 
-Definition replN {A : Type} (n : N) (x : A) : list A := N.iter n (cons x) [].
+Definition bm_replN {A : Type} (n : N) (x : A) : list A := N.iter n (cons x) [].
 
 (* ------------------------------------------------------------------ *)
 (* constants of varintBitmap.h (checked against the header in BitmapLemmas.v) *)
@@ -95,22 +91,22 @@ Definition BM_ARRAY : N := 0.
 Definition BM_BITMAP : N := 1.
 Definition BM_RUNS : N := 2.
 
-Definition to_s32 (x : N) : Z :=
+Definition bm_to_s32 (x : N) : Z :=
   if x <? 2147483648 then Z.of_N x else (Z.of_N x - 4294967296)%Z.
 (* uint32_t wrap-around, with the no-wrap case decided by one comparison
-   (u32' x = u32 x, u16' x = u16 x, sub32 x y = (x - y) mod 2^32 in uint32_t) *)
-Definition u32' (x : N) : N := if x <? 4294967296 then x else x mod 4294967296.
-Definition u16' (x : N) : N := if x <? 65536 then x else x mod 65536.
-Definition sub32 (x y : N) : N :=
+   (bm_u32 x = u32 x, bm_u16 x = u16 x, bm_sub32 x y = (x - y) mod 2^32 in uint32_t) *)
+Definition bm_u32 (x : N) : N := if x <? 4294967296 then x else x mod 4294967296.
+Definition bm_u16 (x : N) : N := if x <? 65536 then x else x mod 65536.
+Definition bm_sub32 (x y : N) : N :=
   if (y <=? x) && (x <? 4294967296) then x - y
   else (x + 4294967296 - y mod 4294967296) mod 4294967296.
 
-Inductive container :=
-| CArray (rvals : list N) (cap : N)
-| CBits (bits : mem8)
-| CRuns (runs : list (N * N)) (cap : N).
+Inductive bm_container :=
+| BmArray (rvals : list N) (cap : N)
+| BmBits (bits : bm_mem8)
+| BmRuns (runs : list (N * N)) (cap : N).
 
-Record bitmap := mkBM { bm_card : N; bm_c : container }.
+Record bm_state := mkBM { bm_card : N; bm_c : bm_container }.
 
 (* ------------------------------------------------------------------ *)
 (* internal helpers                                                     *)
@@ -121,431 +117,431 @@ Record bitmap := mkBM { bm_card : N; bm_c : container }.
    The array is handed over last-slot-first: `ah` is values[high], values[high-1],
    ..., values[0] and `am` the same from values[mid] on, so that array[mid] is the
    head of `am`. *)
-Fixpoint bsearch_loop (fuel : nat) (ah : list N) (low high : Z) (v : N) : Z :=
+Fixpoint bm_bsearch_loop (fuel : nat) (ah : list N) (low high : Z) (v : N) : Z :=
   match fuel with
   | O => (-1099511627776)%Z
   | S f =>
       if (low <=? high)%Z then
         let mid := Z.quot2 (low + high) in
-        let am := skipnN (Z.to_N (high - mid)) ah in
+        let am := bm_skipnN (Z.to_N (high - mid)) ah in
         let midVal := hd 0 am in
-        if midVal <? v then bsearch_loop f ah (mid + 1)%Z high v
-        else if v <? midVal then bsearch_loop f (tl am) low (mid - 1)%Z v
+        if midVal <? v then bm_bsearch_loop f ah (mid + 1)%Z high v
+        else if v <? midVal then bm_bsearch_loop f (tl am) low (mid - 1)%Z v
         else mid
       else (- (low + 1))%Z
   end.
 
 (* binarySearch_(values, length, value) with rvals = values[length-1], ..., values[0] *)
-Definition binary_search (rvals : list N) (length v : N) : Z :=
+Definition bm_binary_search (rvals : list N) (length v : N) : Z :=
   if length =? 0 then (-1)%Z
-  else bsearch_loop 40 rvals 0%Z (to_s32 (sub32 length 1)) v.
+  else bm_bsearch_loop 40 rvals 0%Z (bm_to_s32 (bm_sub32 length 1)) v.
 
 (* values[0], values[1], ... in index order *)
-Definition arr_values (rvals : list N) : list N := rev_append rvals [].
-Definition arr_of_values (vals : list N) : list N := rev_append vals [].
+Definition bm_arr_values (rvals : list N) : list N := rev_append rvals [].
+Definition bm_arr_of_values (vals : list N) : list N := rev_append vals [].
 
 (* __builtin_popcount of one byte *)
-Fixpoint popc (k : nat) (b : N) : N :=
+Fixpoint bm_popc (k : nat) (b : N) : N :=
   match k with
   | O => 0
-  | S k' => N.b2n (N.odd b) + popc k' (N.div2 b)
+  | S k' => N.b2n (N.odd b) + bm_popc k' (N.div2 b)
   end.
-Definition popcount8 (b : N) : N := popc 8 b.
+Definition bm_popcount8 (b : N) : N := bm_popc 8 b.
 
 (* bitmapCardinality_ *)
-Definition bitmap_cardinality (bits : mem8) : N :=
-  u32' (fold_left (fun c i => c + popcount8 (mget bits i)) byte_idx 0).
+Definition bm_bitmap_cardinality (bits : bm_mem8) : N :=
+  bm_u32 (fold_left (fun c i => c + bm_popcount8 (bm_mget bits i)) bm_byte_idx 0).
 
 (* bitmapContains_ *)
-Definition bits_contains (bits : mem8) (v : N) : bool :=
+Definition bm_bits_contains (bits : bm_mem8) (v : N) : bool :=
   let byteIdx := v / 8 in
   let bitIdx := v mod 8 in
-  negb (N.land (mget bits byteIdx) (2 ^ bitIdx) =? 0).
+  negb (N.land (bm_mget bits byteIdx) (2 ^ bitIdx) =? 0).
 
 (* bitmapSet_ : (bits, changed) *)
-Definition bits_set (bits : mem8) (v : N) : mem8 * bool :=
+Definition bm_bits_set (bits : bm_mem8) (v : N) : bm_mem8 * bool :=
   let byteIdx := v / 8 in
   let mask := 2 ^ (v mod 8) in
-  let b := mget bits byteIdx in
+  let b := bm_mget bits byteIdx in
   let wasSet := negb (N.land b mask =? 0) in
-  (mset bits byteIdx (N.lor b mask), negb wasSet).
+  (bm_mset bits byteIdx (N.lor b mask), negb wasSet).
 
 (* bitmapClear_ : (bits, changed) *)
-Definition bits_clear (bits : mem8) (v : N) : mem8 * bool :=
+Definition bm_bits_clear (bits : bm_mem8) (v : N) : bm_mem8 * bool :=
   let byteIdx := v / 8 in
   let mask := 2 ^ (v mod 8) in
-  let b := mget bits byteIdx in
+  let b := bm_mget bits byteIdx in
   let wasSet := negb (N.land b mask =? 0) in
-  (mset bits byteIdx (N.ldiff b mask), wasSet).
+  (bm_mset bits byteIdx (N.ldiff b mask), wasSet).
 
-Definition zero_bits : mem8 := mzero.
+Definition bm_zero_bits : bm_mem8 := bm_mzero.
 
 (* the scan `for (i = 0; i < 65536; i++) if (bitmapContains_(bits, i)) emit i`,
    byte by byte: bit k of byte j is value 8 j + k *)
-Fixpoint byte_vals (k : nat) (base b : N) : list N :=
+Fixpoint bm_byte_vals (k : nat) (base b : N) : list N :=
   match k with
   | O => []
-  | S k' => (if N.odd b then [base] else []) ++ byte_vals k' (N.succ base) (N.div2 b)
+  | S k' => (if N.odd b then [base] else []) ++ bm_byte_vals k' (N.succ base) (N.div2 b)
   end.
-Definition bits_values (bits : mem8) : list N :=
-  flat_map (fun j => match mget bits j with N0 => [] | b => byte_vals 8 (j * 8) b end) byte_idx.
+Definition bm_bits_values (bits : bm_mem8) : list N :=
+  flat_map (fun j => match bm_mget bits j with N0 => [] | b => bm_byte_vals 8 (j * 8) b end) bm_byte_idx.
 
 (* arrayToBitmap_: calloc + bitmapSet_ of values[0..cardinality) *)
-Definition set_all (bits : mem8) (vs : list N) : mem8 :=
-  fold_left (fun b v => fst (bits_set b v)) vs bits.
-Definition array_to_bits (rvals : list N) : mem8 :=
-  set_all zero_bits (arr_values rvals).
+Definition bm_set_all (bits : bm_mem8) (vs : list N) : bm_mem8 :=
+  fold_left (fun b v => fst (bm_bits_set b v)) vs bits.
+Definition bm_array_to_bits (rvals : list N) : bm_mem8 :=
+  bm_set_all bm_zero_bits (bm_arr_values rvals).
 
 (* the values of one run: (uint16_t)(start + j), j = 0 .. length-1 *)
-Definition run_vals (r : N * N) : list N :=
-  map (fun j => u16' (fst r + j)) (nseqN 0 (snd r)).
+Definition bm_run_vals (r : N * N) : list N :=
+  map (fun j => bm_u16 (fst r + j)) (bm_nseqN 0 (snd r)).
 (* runs -> array: values[pos++] = start + j *)
-Definition runs_values (runs : list (N * N)) : list N := flat_map run_vals runs.
-(* runs -> bitmap: calloc + bitmapSet_(bits, start + j) *)
-Definition runs_to_bits (runs : list (N * N)) : mem8 :=
-  fold_left (fun b r => set_all b (run_vals r)) runs zero_bits.
+Definition bm_runs_values (runs : list (N * N)) : list N := flat_map bm_run_vals runs.
+(* runs -> bm_state: calloc + bitmapSet_(bits, start + j) *)
+Definition bm_runs_to_bits (runs : list (N * N)) : bm_mem8 :=
+  fold_left (fun b r => bm_set_all b (bm_run_vals r)) runs bm_zero_bits.
 
 (* arrayEnsureCapacity_: the new capacity *)
-Definition ensure_capacity (cap needed : N) : N :=
+Definition bm_ensure_capacity (cap needed : N) : N :=
   if needed <=? cap then cap
   else
-    let newCapacity := u32' (cap * 2) in
+    let newCapacity := bm_u32 (cap * 2) in
     if newCapacity <? needed then needed else newCapacity.
 
 (* ------------------------------------------------------------------ *)
 (* core API                                                             *)
 
 (* varintBitmapCreate *)
-Definition bm_create : bitmap := mkBM 0 (CArray [] 16).
+Definition bm_create : bm_state := mkBM 0 (BmArray [] 16).
 
 (* varintBitmapClone: same type, cardinality, capacity and live data *)
-Definition bm_clone (s : bitmap) : bitmap :=
+Definition bm_clone (s : bm_state) : bm_state :=
   match bm_c s with
-  | CArray rvals cap => mkBM (bm_card s) (CArray rvals cap)
-  | CBits bits => mkBM (bm_card s) (CBits bits)
-  | CRuns runs cap => mkBM (bm_card s) (CRuns runs cap)
+  | BmArray rvals cap => mkBM (bm_card s) (BmArray rvals cap)
+  | BmBits bits => mkBM (bm_card s) (BmBits bits)
+  | BmRuns runs cap => mkBM (bm_card s) (BmRuns runs cap)
   end.
 
 (* varintBitmapAdd, ARRAY case *)
-Definition add_array (card : N) (rvals : list N) (cap v : N) : bitmap * bool :=
-  let idx := binary_search rvals card v in
-  if (0 <=? idx)%Z then (mkBM card (CArray rvals cap), false)
+Definition bm_add_array (card : N) (rvals : list N) (cap v : N) : bm_state * bool :=
+  let idx := bm_binary_search rvals card v in
+  if (0 <=? idx)%Z then (mkBM card (BmArray rvals cap), false)
   else if 4096 <=? card then
-    let bits := array_to_bits rvals in
-    (mkBM (u32' (card + 1)) (CBits (fst (bits_set bits v))), true)
+    let bits := bm_array_to_bits rvals in
+    (mkBM (bm_u32 (card + 1)) (BmBits (fst (bm_bits_set bits v))), true)
   else
     let insertPos := Z.to_N (- (idx + 1)) in
-    let cap' := ensure_capacity cap (u32' (card + 1)) in
+    let cap' := bm_ensure_capacity cap (bm_u32 (card + 1)) in
     (* slot insertPos counted from the front = card - insertPos cells from the back *)
-    (mkBM (u32' (card + 1)) (CArray (insertN rvals (card - insertPos) v) cap'), true).
+    (mkBM (bm_u32 (card + 1)) (BmArray (bm_insertN rvals (card - insertPos) v) cap'), true).
 
 (* varintBitmapAdd, BITMAP case *)
-Definition add_bits (card : N) (bits : mem8) (v : N) : bitmap * bool :=
-  let r := bits_set bits v in
-  if snd r then (mkBM (u32' (card + 1)) (CBits (fst r)), true)
-  else (mkBM card (CBits (fst r)), false).
+Definition bm_add_bits (card : N) (bits : bm_mem8) (v : N) : bm_state * bool :=
+  let r := bm_bits_set bits v in
+  if snd r then (mkBM (bm_u32 (card + 1)) (BmBits (fst r)), true)
+  else (mkBM card (BmBits (fst r)), false).
 
 (* varintBitmapAdd *)
-Definition bm_add (s : bitmap) (v : N) : bitmap * bool :=
+Definition bm_add (s : bm_state) (v : N) : bm_state * bool :=
   match bm_c s with
-  | CArray rvals cap => add_array (bm_card s) rvals cap v
-  | CBits bits => add_bits (bm_card s) bits v
-  | CRuns runs _ =>
-      if 4096 <=? bm_card s then add_bits (bm_card s) (runs_to_bits runs) v
-      else add_array (bm_card s) (arr_of_values (runs_values runs)) (u32' (bm_card s + 1)) v
+  | BmArray rvals cap => bm_add_array (bm_card s) rvals cap v
+  | BmBits bits => bm_add_bits (bm_card s) bits v
+  | BmRuns runs _ =>
+      if 4096 <=? bm_card s then bm_add_bits (bm_card s) (bm_runs_to_bits runs) v
+      else bm_add_array (bm_card s) (bm_arr_of_values (bm_runs_values runs)) (bm_u32 (bm_card s + 1)) v
   end.
 
 (* varintBitmapRemove, ARRAY case *)
-Definition remove_array (card : N) (rvals : list N) (cap v : N) : bitmap * bool :=
-  let idx := binary_search rvals card v in
-  if (idx <? 0)%Z then (mkBM card (CArray rvals cap), false)
-  else (mkBM (sub32 card 1) (CArray (removeN rvals (card - 1 - Z.to_N idx)) cap), true).
+Definition bm_remove_array (card : N) (rvals : list N) (cap v : N) : bm_state * bool :=
+  let idx := bm_binary_search rvals card v in
+  if (idx <? 0)%Z then (mkBM card (BmArray rvals cap), false)
+  else (mkBM (bm_sub32 card 1) (BmArray (bm_removeN rvals (card - 1 - Z.to_N idx)) cap), true).
 
 (* varintBitmapRemove, BITMAP case (bitmapToArray_ below 4096) *)
-Definition remove_bits (card : N) (bits : mem8) (v : N) : bitmap * bool :=
-  let r := bits_clear bits v in
+Definition bm_remove_bits (card : N) (bits : bm_mem8) (v : N) : bm_state * bool :=
+  let r := bm_bits_clear bits v in
   if snd r then
-    let card' := sub32 card 1 in
-    if card' <? 4096 then (mkBM card' (CArray (arr_of_values (bits_values (fst r))) card'), true)
-    else (mkBM card' (CBits (fst r)), true)
-  else (mkBM card (CBits (fst r)), false).
+    let card' := bm_sub32 card 1 in
+    if card' <? 4096 then (mkBM card' (BmArray (bm_arr_of_values (bm_bits_values (fst r))) card'), true)
+    else (mkBM card' (BmBits (fst r)), true)
+  else (mkBM card (BmBits (fst r)), false).
 
 (* varintBitmapRemove *)
-Definition bm_remove (s : bitmap) (v : N) : bitmap * bool :=
+Definition bm_remove (s : bm_state) (v : N) : bm_state * bool :=
   match bm_c s with
-  | CArray rvals cap => remove_array (bm_card s) rvals cap v
-  | CBits bits => remove_bits (bm_card s) bits v
-  | CRuns runs _ =>
-      if 4096 <=? bm_card s then remove_bits (bm_card s) (runs_to_bits runs) v
-      else remove_array (bm_card s) (arr_of_values (runs_values runs)) (bm_card s) v
+  | BmArray rvals cap => bm_remove_array (bm_card s) rvals cap v
+  | BmBits bits => bm_remove_bits (bm_card s) bits v
+  | BmRuns runs _ =>
+      if 4096 <=? bm_card s then bm_remove_bits (bm_card s) (bm_runs_to_bits runs) v
+      else bm_remove_array (bm_card s) (bm_arr_of_values (bm_runs_values runs)) (bm_card s) v
   end.
 
 (* varintBitmapContains, RUNS case *)
-Fixpoint runs_contains (runs : list (N * N)) (v : N) : bool :=
+Fixpoint bm_runs_contains (runs : list (N * N)) (v : N) : bool :=
   match runs with
   | [] => false
   | (start, len) :: t =>
       if (start <=? v) && (v <? start + len) then true
       else if v <? start then false
-      else runs_contains t v
+      else bm_runs_contains t v
   end.
 
 (* varintBitmapContains *)
-Definition bm_contains (s : bitmap) (v : N) : bool :=
+Definition bm_contains (s : bm_state) (v : N) : bool :=
   match bm_c s with
-  | CArray rvals _ => (0 <=? binary_search rvals (bm_card s) v)%Z
-  | CBits bits => bits_contains bits v
-  | CRuns runs _ => runs_contains runs v
+  | BmArray rvals _ => (0 <=? bm_binary_search rvals (bm_card s) v)%Z
+  | BmBits bits => bm_bits_contains bits v
+  | BmRuns runs _ => bm_runs_contains runs v
   end.
 
-Definition bm_cardinality (s : bitmap) : N := bm_card s.
-Definition bm_is_empty (s : bitmap) : bool := bm_card s =? 0.
-Definition bm_optimize (s : bitmap) : bitmap := s.
+Definition bm_cardinality (s : bm_state) : N := bm_card s.
+Definition bm_is_empty (s : bm_state) : bool := bm_card s =? 0.
+Definition bm_optimize (s : bm_state) : bm_state := s.
 
 (* varintBitmapClear *)
-Definition bm_clear (s : bitmap) : bitmap :=
+Definition bm_clear (s : bm_state) : bm_state :=
   match bm_c s with
-  | CArray _ cap => mkBM 0 (CArray [] cap)
-  | CBits _ => mkBM 0 (CBits zero_bits)
-  | CRuns _ cap => mkBM 0 (CRuns [] cap)
+  | BmArray _ cap => mkBM 0 (BmArray [] cap)
+  | BmBits _ => mkBM 0 (BmBits bm_zero_bits)
+  | BmRuns _ cap => mkBM 0 (BmRuns [] cap)
   end.
 
 (* varintBitmapSizeBytes (sizeof(varintBitmap) = 24) *)
-Definition bm_size_bytes (s : bitmap) : N :=
+Definition bm_size_bytes (s : bm_state) : N :=
   match bm_c s with
-  | CArray _ cap => 24 + cap * 2
-  | CBits _ => 24 + 8192
-  | CRuns _ cap => 24 + cap * 2 * 2
+  | BmArray _ cap => 24 + cap * 2
+  | BmBits _ => 24 + 8192
+  | BmRuns _ cap => 24 + cap * 2 * 2
   end.
 
-Definition bm_type (s : bitmap) : N :=
-  match bm_c s with CArray _ _ => BM_ARRAY | CBits _ => BM_BITMAP | CRuns _ _ => BM_RUNS end.
+Definition bm_type (s : bm_state) : N :=
+  match bm_c s with BmArray _ _ => BM_ARRAY | BmBits _ => BM_BITMAP | BmRuns _ _ => BM_RUNS end.
 
 (* varintBitmapGetStats: (sizeBytes, type, cardinality, containerCapacity) *)
-Definition bm_get_stats (s : bitmap) : N * N * N * N :=
+Definition bm_get_stats (s : bm_state) : N * N * N * N :=
   (bm_size_bytes s, bm_type s, bm_card s,
-   match bm_c s with CArray _ cap => cap | CBits _ => 8192 * 8 | CRuns _ cap => cap end).
+   match bm_c s with BmArray _ cap => cap | BmBits _ => 8192 * 8 | BmRuns _ cap => cap end).
 
 (* ------------------------------------------------------------------ *)
 (* iteration                                                            *)
 
 (* the sequence of currentValue produced by
      it = CreateIterator(vb); while (IteratorNext(&it)) ...
-   (proved equal to repeated iter_next in BitmapProofsIter.v) *)
-Definition iter_all (s : bitmap) : list N :=
+   (proved equal to repeated bm_iter_next in BitmapProofsIter.v) *)
+Definition bm_iter_all (s : bm_state) : list N :=
   match bm_c s with
-  | CArray rvals _ => arr_values rvals
-  | CBits bits => bits_values bits
-  | CRuns runs _ => runs_values runs
+  | BmArray rvals _ => bm_arr_values rvals
+  | BmBits bits => bm_bits_values bits
+  | BmRuns runs _ => bm_runs_values runs
   end.
 
 (* varintBitmapIterator: position, currentValue, hasValue *)
-Record iter := mkIt { it_pos : N; it_cur : N; it_has : bool }.
-Definition iter_init : iter := mkIt 0 0 false.
+Record bm_iter := mkBmIt { bm_it_pos : N; bm_it_cur : N; bm_it_has : bool }.
+Definition bm_iter_init : bm_iter := mkBmIt 0 0 false.
 
 (* the BITMAP loop of IteratorNext: first position >= 8*j0 + from whose bit is
    set, scanning the bytes with indices `idxs` (= j0, j0+1, .. 8191); 65536 when
    there is none *)
-Fixpoint first_bit (k : nat) (b from i : N) : option N :=
+Fixpoint bm_first_bit (k : nat) (b from i : N) : option N :=
   match k with
   | O => None
-  | S k' => if (from <=? i) && N.odd b then Some i else first_bit k' (N.div2 b) from (N.succ i)
+  | S k' => if (from <=? i) && N.odd b then Some i else bm_first_bit k' (N.div2 b) from (N.succ i)
   end.
-Fixpoint scan_bits (bits : mem8) (idxs : list N) (from : N) : N :=
+Fixpoint bm_scan_bits (bits : bm_mem8) (idxs : list N) (from : N) : N :=
   match idxs with
   | [] => 65536
-  | j :: t => match first_bit 8 (mget bits j) from 0 with
+  | j :: t => match bm_first_bit 8 (bm_mget bits j) from 0 with
               | Some k => j * 8 + k
-              | None => scan_bits bits t 0
+              | None => bm_scan_bits bits t 0
               end
   end.
 
 (* RUNS case of IteratorNext on the runs from runIdx on *)
-Fixpoint runs_next (rest : list (N * N)) (runIdx off : N) : option (N * N) :=
+Fixpoint bm_runs_next (rest : list (N * N)) (runIdx off : N) : option (N * N) :=
   match rest with
   | [] => None
   | (start, len) :: t =>
-      if off <? len then Some (u32' (runIdx * 65536 + off + 1), u16' (start + off))
-      else runs_next t (runIdx + 1) 0
+      if off <? len then Some (bm_u32 (runIdx * 65536 + off + 1), bm_u16 (start + off))
+      else bm_runs_next t (runIdx + 1) 0
   end.
 
 (* varintBitmapIteratorNext : (iterator, returned flag) *)
-Definition iter_next (s : bitmap) (it : iter) : iter * bool :=
+Definition bm_iter_next (s : bm_state) (it : bm_iter) : bm_iter * bool :=
   match bm_c s with
-  | CArray rvals _ =>
-      if it_pos it <? bm_card s
-      then (mkIt (it_pos it + 1) (nthN rvals (bm_card s - 1 - it_pos it)) true, true)
-      else (mkIt (it_pos it) (it_cur it) false, false)
-  | CBits bits =>
-      let p := it_pos it in
-      let q := if p <? 65536 then scan_bits bits (skipnN (p / 8) byte_idx) (p mod 8) else p in
-      if q <? 65536 then (mkIt (q + 1) q true, true)
-      else (mkIt q (it_cur it) false, false)
-  | CRuns runs _ =>
+  | BmArray rvals _ =>
+      if bm_it_pos it <? bm_card s
+      then (mkBmIt (bm_it_pos it + 1) (bm_nthN rvals (bm_card s - 1 - bm_it_pos it)) true, true)
+      else (mkBmIt (bm_it_pos it) (bm_it_cur it) false, false)
+  | BmBits bits =>
+      let p := bm_it_pos it in
+      let q := if p <? 65536 then bm_scan_bits bits (bm_skipnN (p / 8) bm_byte_idx) (p mod 8) else p in
+      if q <? 65536 then (mkBmIt (q + 1) q true, true)
+      else (mkBmIt q (bm_it_cur it) false, false)
+  | BmRuns runs _ =>
       (* position / 65536 and position % 65536, by shift and mask *)
-      let runIdx := N.shiftr (it_pos it) 16 in
-      let off := N.land (it_pos it) 65535 in
-      match runs_next (skipnN runIdx runs) runIdx off with
-      | Some (p, v) => (mkIt p v true, true)
+      let runIdx := N.shiftr (bm_it_pos it) 16 in
+      let off := N.land (bm_it_pos it) 65535 in
+      match bm_runs_next (bm_skipnN runIdx runs) runIdx off with
+      | Some (p, v) => (mkBmIt p v true, true)
       | None =>
           (* the position reached when the runs are exhausted *)
-          let p := if runIdx <? lenN runs then u32' (lenN runs * 65536) else it_pos it in
-          (mkIt p (it_cur it) false, false)
+          let p := if runIdx <? bm_lenN runs then bm_u32 (bm_lenN runs * 65536) else bm_it_pos it in
+          (mkBmIt p (bm_it_cur it) false, false)
       end
   end.
 
 (* ToArray-style loop run with explicit fuel (used to state the iterator theorem) *)
-Fixpoint iter_run (fuel : nat) (s : bitmap) (it : iter) : list N :=
+Fixpoint bm_iter_run (fuel : nat) (s : bm_state) (it : bm_iter) : list N :=
   match fuel with
   | O => []
-  | S f => let r := iter_next s it in
-           if snd r then it_cur (fst r) :: iter_run f s (fst r) else []
+  | S f => let r := bm_iter_next s it in
+           if snd r then bm_it_cur (fst r) :: bm_iter_run f s (fst r) else []
   end.
 
 (* varintBitmapToArray: the values written to output[0..count) *)
-Definition bm_to_array (s : bitmap) : list N := iter_all s.
+Definition bm_to_array (s : bm_state) : list N := bm_iter_all s.
 
 (* varintBitmapAddMany *)
-Definition bm_add_many (s : bitmap) (vs : list N) : bitmap :=
+Definition bm_add_many (s : bm_state) (vs : list N) : bm_state :=
   fold_left (fun r v => fst (bm_add r v)) vs s.
 
 (* ------------------------------------------------------------------ *)
 (* set operations (operands are const; results are fresh)               *)
 
 (* the two-pointer loop of varintBitmapAnd on two arrays *)
-Fixpoint and_arrays (l1 : list N) : list N -> bitmap -> bitmap :=
-  fix go (l2 : list N) (r : bitmap) : bitmap :=
+Fixpoint bm_and_arrays (l1 : list N) : list N -> bm_state -> bm_state :=
+  fix go (l2 : list N) (r : bm_state) : bm_state :=
     match l1, l2 with
     | v1 :: t1, v2 :: t2 =>
-        if v1 =? v2 then and_arrays t1 t2 (fst (bm_add r v1))
-        else if v1 <? v2 then and_arrays t1 l2 r
+        if v1 =? v2 then bm_and_arrays t1 t2 (fst (bm_add r v1))
+        else if v1 <? v2 then bm_and_arrays t1 l2 r
         else go t2 r
     | _, _ => r
     end.
 
-Definition is_array (s : bitmap) : bool :=
-  match bm_c s with CArray _ _ => true | _ => false end.
+Definition bm_is_array (s : bm_state) : bool :=
+  match bm_c s with BmArray _ _ => true | _ => false end.
 
-Definition bm_and (a b : bitmap) : bitmap :=
-  if is_array a && is_array b then and_arrays (iter_all a) (iter_all b) bm_create
+Definition bm_and (a b : bm_state) : bm_state :=
+  if bm_is_array a && bm_is_array b then bm_and_arrays (bm_iter_all a) (bm_iter_all b) bm_create
   else
     let smaller := if bm_card a <? bm_card b then a else b in
     let other := if bm_card a <? bm_card b then b else a in
     fold_left (fun r v => if bm_contains other v then fst (bm_add r v) else r)
-              (iter_all smaller) bm_create.
+              (bm_iter_all smaller) bm_create.
 
-Definition bm_or (a b : bitmap) : bitmap :=
-  fold_left (fun r v => fst (bm_add r v)) (iter_all b) (bm_clone a).
+Definition bm_or (a b : bm_state) : bm_state :=
+  fold_left (fun r v => fst (bm_add r v)) (bm_iter_all b) (bm_clone a).
 
-Definition bm_andnot (a b : bitmap) : bitmap :=
-  fold_left (fun r v => if bm_contains b v then r else fst (bm_add r v)) (iter_all a) bm_create.
+Definition bm_andnot (a b : bm_state) : bm_state :=
+  fold_left (fun r v => if bm_contains b v then r else fst (bm_add r v)) (bm_iter_all a) bm_create.
 
-Definition bm_xor (a b : bitmap) : bitmap :=
-  let r1 := fold_left (fun r v => if bm_contains b v then r else fst (bm_add r v)) (iter_all a) bm_create in
-  fold_left (fun r v => if bm_contains a v then r else fst (bm_add r v)) (iter_all b) r1.
+Definition bm_xor (a b : bm_state) : bm_state :=
+  let r1 := fold_left (fun r v => if bm_contains b v then r else fst (bm_add r v)) (bm_iter_all a) bm_create in
+  fold_left (fun r v => if bm_contains a v then r else fst (bm_add r v)) (bm_iter_all b) r1.
 
 (* ------------------------------------------------------------------ *)
 (* range operations                                                     *)
 
 (* varintBitmapAddRange (after the F24 fix: the single-run shortcut only on an
    empty set) *)
-Definition bm_add_range (s : bitmap) (min max : N) : bitmap :=
+Definition bm_add_range (s : bm_state) (min max : N) : bm_state :=
   if max <=? min then s
   else
     let rangeSize := max - min in
     if (4096 <? rangeSize) && (bm_card s =? 0) then
-      mkBM rangeSize (CRuns [(min, u16' rangeSize)] 1)
-    else for_loop min rangeSize (fun i r => fst (bm_add r i)) s.
+      mkBM rangeSize (BmRuns [(min, bm_u16 rangeSize)] 1)
+    else bm_for_loop min rangeSize (fun i r => fst (bm_add r i)) s.
 
 (* varintBitmapRemoveRange *)
-Definition bm_remove_range (s : bitmap) (min max : N) : bitmap :=
-  for_loop min (max - min) (fun i r => fst (bm_remove r i)) s.
+Definition bm_remove_range (s : bm_state) (min max : N) : bm_state :=
+  bm_for_loop min (max - min) (fun i r => fst (bm_remove r i)) s.
 
 (* ------------------------------------------------------------------ *)
 (* serialisation (little-endian host: memcpy of uint32_t / uint16_t)    *)
 
-Definition enc_u16s (l : list N) : list N := flat_map (le_bytes 2) l.
-Definition enc_runs (l : list (N * N)) : list N :=
+Definition bm_enc_u16s (l : list N) : list N := flat_map (le_bytes 2) l.
+Definition bm_enc_runs (l : list (N * N)) : list N :=
   flat_map (fun r => le_bytes 2 (fst r) ++ le_bytes 2 (snd r)) l.
 
 (* varintBitmapEncode: the bytes written (return value = their number) *)
-Definition bm_encode (s : bitmap) : list N :=
+Definition bm_encode (s : bm_state) : list N :=
   [bm_type s] ++ le_bytes 4 (bm_card s) ++
   match bm_c s with
-  | CArray rvals _ => enc_u16s (arr_values rvals)
-  | CBits bits => map (mget bits) byte_idx
-  | CRuns runs _ => le_bytes 4 (lenN runs) ++ enc_runs runs
+  | BmArray rvals _ => bm_enc_u16s (bm_arr_values rvals)
+  | BmBits bits => map (bm_mget bits) bm_byte_idx
+  | BmRuns runs _ => le_bytes 4 (bm_lenN runs) ++ bm_enc_runs runs
   end.
 
 (* reading: `cnt` bytes at offset `off` (positions beyond the list read as 0;
    the decoder is proved never to ask for a position at or beyond `len`) *)
-Definition rd (z : list N) (off cnt : N) : list N :=
-  let s := firstnN cnt (skipnN off z) in
-  s ++ replN (cnt - lenN s) 0.
+Definition bm_rd (z : list N) (off cnt : N) : list N :=
+  let s := bm_firstnN cnt (bm_skipnN off z) in
+  s ++ bm_replN (cnt - bm_lenN s) 0.
 
-Fixpoint dec_u16s (l : list N) : list N :=
+Fixpoint bm_dec_u16s (l : list N) : list N :=
   match l with
-  | a :: b :: t => (a + 256 * b) :: dec_u16s t
+  | a :: b :: t => (a + 256 * b) :: bm_dec_u16s t
   | _ => []
   end.
-Fixpoint dec_runs (l : list N) : list (N * N) :=
+Fixpoint bm_dec_runs (l : list N) : list (N * N) :=
   match l with
-  | a :: b :: c :: d :: t => (a + 256 * b, c + 256 * d) :: dec_runs t
+  | a :: b :: c :: d :: t => (a + 256 * b, c + 256 * d) :: bm_dec_runs t
   | _ => []
   end.
 
 (* values[i-1] < values[i] for all i *)
-Fixpoint ascending (l : list N) : bool :=
+Fixpoint bm_ascending (l : list N) : bool :=
   match l with
-  | a :: ((b :: _) as t) => (a <? b) && ascending t
+  | a :: ((b :: _) as t) => (a <? b) && bm_ascending t
   | _ => true
   end.
 
 (* the run validation loop: Some total, or None as soon as a run is rejected *)
-Fixpoint check_runs (runs : list (N * N)) (nextFree total : N) : option N :=
+Fixpoint bm_check_runs (runs : list (N * N)) (nextFree total : N) : option N :=
   match runs with
   | [] => Some total
   | (start, len) :: t =>
       if (len =? 0) || (start <? nextFree) || (65536 <? start + len) then None
-      else check_runs t (start + len) (u32' (total + len))
+      else bm_check_runs t (start + len) (bm_u32 (total + len))
   end.
 
 (* varintBitmapDecode(buffer, len): (result or NULL, bytes requested from malloc) *)
-Definition bm_decode (z : list N) (len : N) : option bitmap * N :=
+Definition bm_decode (z : list N) (len : N) : option bm_state * N :=
   if len <? 5 then (None, 0)
   else
-    let type := nthN z 0 in
-    let cardinality := of_le (rd z 1 4) in
+    let type := bm_nthN z 0 in
+    let cardinality := of_le (bm_rd z 1 4) in
     let len1 := len - 5 in
     if (2 <? type) || (65536 <? cardinality) then (None, 0)
     else if type =? 0 then
       if len1 / 2 <? cardinality then (None, 24)
       else
-        let vals := dec_u16s (rd z 5 (cardinality * 2)) in
-        if ascending vals then (Some (mkBM cardinality (CArray (arr_of_values vals) cardinality)), 24 + cardinality * 2)
+        let vals := bm_dec_u16s (bm_rd z 5 (cardinality * 2)) in
+        if bm_ascending vals then (Some (mkBM cardinality (BmArray (bm_arr_of_values vals) cardinality)), 24 + cardinality * 2)
         else (None, 24 + cardinality * 2)
     else if type =? 1 then
       if len1 <? 8192 then (None, 24)
       else
-        let bits := mem_of_bytes (rd z 5 8192) in
-        if bitmap_cardinality bits =? cardinality then (Some (mkBM cardinality (CBits bits)), 24 + 8192)
+        let bits := bm_mem_of_bytes (bm_rd z 5 8192) in
+        if bm_bitmap_cardinality bits =? cardinality then (Some (mkBM cardinality (BmBits bits)), 24 + 8192)
         else (None, 24 + 8192)
     else
       if len1 <? 4 then (None, 24)
       else
-        let numRuns := of_le (rd z 5 4) in
+        let numRuns := of_le (bm_rd z 5 4) in
         let len2 := len1 - 4 in
         if (cardinality <? numRuns) || (len2 / 4 <? numRuns) then (None, 24)
         else
-          let runs := dec_runs (rd z 9 (numRuns * 4)) in
-          match check_runs runs 0 0 with
+          let runs := bm_dec_runs (bm_rd z 9 (numRuns * 4)) in
+          match bm_check_runs runs 0 0 with
           | Some total =>
-              if total =? cardinality then (Some (mkBM cardinality (CRuns runs numRuns)), 24 + numRuns * 4)
+              if total =? cardinality then (Some (mkBM cardinality (BmRuns runs numRuns)), 24 + numRuns * 4)
               else (None, 24 + numRuns * 4)
           | None => (None, 24 + numRuns * 4)
           end.
 
 (* EXTRACT: bm_create bm_clone bm_add bm_remove bm_contains bm_cardinality bm_is_empty
-   bm_optimize bm_clear bm_size_bytes bm_get_stats bm_type iter_all iter_init iter_next it_pos it_cur it_has
+   bm_optimize bm_clear bm_size_bytes bm_get_stats bm_type bm_iter_all bm_iter_init bm_iter_next bm_it_pos bm_it_cur bm_it_has
    bm_to_array bm_add_many bm_and bm_or bm_xor bm_andnot bm_add_range bm_remove_range
-   bm_encode bm_decode bm_card lenN insertN binary_search skipnN add_array *)
+   bm_encode bm_decode bm_card bm_lenN *)
